@@ -1664,10 +1664,392 @@ theorem addEntry_T (T : Tr) (m : Nat) (s : St) (key : Str) (e : Entry)
           | _, _ => _)
         have hwd : (T.db s.db).wanted = s.db.wanted := rfl
         rw [hwd]
-        have := T_addEntry T s.db { e with key := canonicalKey s.db key } hn
-        split
-        · rename_i cr w h1 h2
-          simp only [this]
-        · exact this.symm
+        split <;>
+          simp only [Tr.db, List.take_append_of_le_length hn, List.drop_append_of_le_length hn,
+            List.append_assoc]
+
+theorem T_errs_len (T : Tr) (s : St) : (T.app s).errs.length = T.R.length + s.errs.length := by
+  show (T.R ++ s.errs.map (shiftErr T.k)).length = _
+  simp
+
+theorem processEntry_aux {N : Nat} (T : Tr) (m : Nat) (key : Str) (fields : List (Str × List Str))
+    (e0 : Entry) (s : St) (hI : Inv N s)
+    (hn : T.n ≤ s.db.entries.length) (hm : m ≤ (T.app s).errs.length)
+    (hk : NoClashR T m ((processFields key fields [] e0 (T.app s)).bind (fun e s => addEntry s key e))) :
+    (processFields key fields [] e0 (T.app s)).bind (fun e s => addEntry s key e) =
+      ((processFields key fields [] e0 s).bind (fun e s => addEntry s key e)).mapR T := by
+  rw [processFields_T] at hk ⊢
+  have hg := processFields_good key fields [] e0 s hI
+  have hdb := processFields_db key fields [] e0 s
+  cases hpf : processFields key fields [] e0 s with
+  | fail a s' => rfl
+  | ok e s3 =>
+    rw [hpf] at hk hg hdb
+    simp only [Res.mapR, Res.bind] at hk ⊢
+    apply addEntry_T T m s3 key e
+    · have : s3.db = s.db := hdb
+      rw [this]; exact hn
+    · have h1 : s.errs.length ≤ s3.errs.length := hg.2.2.2.2.1.length_le
+      rw [T_errs_len] at hm ⊢
+      omega
+    · exact hk
+
+theorem processEntry_bind (type : Str) (key : Option Str) (fields : List (Str × List Str)) (s : St) :
+    processEntry type key fields s =
+      match key with
+      | some k =>
+        (processFields k fields [] { key := k, type := lower type, origType := type, fields := [], persons := [] } s).bind
+          (fun e s => addEntry s k e)
+      | none =>
+        (processFields ("unnamed-".toList ++ natToStr s.unnamed) fields []
+          { key := "unnamed-".toList ++ natToStr s.unnamed, type := lower type, origType := type, fields := [], persons := [] }
+          { s with unnamed := s.unnamed + 1 }).bind
+          (fun e s' => addEntry s' ("unnamed-".toList ++ natToStr s.unnamed) e) := by
+  unfold processEntry
+  cases key with
+  | some k =>
+    simp only
+    cases processFields k fields [] { key := k, type := lower type, origType := type, fields := [], persons := [] } s <;> rfl
+  | none =>
+    simp only
+    cases processFields ("unnamed-".toList ++ natToStr s.unnamed) fields []
+      { key := "unnamed-".toList ++ natToStr s.unnamed, type := lower type, origType := type, fields := [], persons := [] }
+      { s with unnamed := s.unnamed + 1 } <;> rfl
+
+theorem processEntry_T {N : Nat} (T : Tr) (m : Nat) (type : Str) (key : Option Str)
+    (fields : List (Str × List Str)) (s : St) (hI : Inv N s)
+    (hn : T.n ≤ s.db.entries.length) (hm : m ≤ (T.app s).errs.length)
+    (hk : NoClashR T m (processEntry type key fields (T.app s))) :
+    processEntry type key fields (T.app s) = (processEntry type key fields s).mapR T := by
+  rw [processEntry_bind] at hk ⊢
+  rw [processEntry_bind]
+  cases key with
+  | some k => exact processEntry_aux T m k fields _ s hI hn hm hk
+  | none =>
+    exact processEntry_aux T m _ fields _ { s with unnamed := s.unnamed + 1 } hI hn hm hk
+
+theorem processCmd_T {N : Nat} (T : Tr) (m : Nat) (c : Cmd) (s : St) (hI : Inv N s)
+    (hn : T.n ≤ s.db.entries.length) (hm : m ≤ (T.app s).errs.length)
+    (hk : NoClashR T m (processCmd c (T.app s))) :
+    processCmd c (T.app s) = (processCmd c s).mapR T := by
+  cases c with
+  | string => rfl
+  | preamble v =>
+    simp only [processCmd, Res.mapR]
+    congr 1
+    apply St.ext' <;> try rfl
+    show ({ T.db s.db with preamble := (T.db s.db).preamble ++ [normalizeWs v.flatten] } : Db) =
+      T.db { s.db with preamble := s.db.preamble ++ [normalizeWs v.flatten] }
+    simp only [Tr.db, List.append_assoc]
+  | entry t k fs => exact processEntry_T T m t k fs s hI hn hm hk
+
+/-! ## §7 one round of the command loop -/
+
+abbrev Step := (St × Option Err) ⊕ St
+
+def Step.st : Step → St
+  | .inl (s, _) => s
+  | .inr s => s
+
+def Step.err : Step → Option Err
+  | .inl (_, o) => o
+  | .inr _ => none
+
+def Step.mapT (T : Tr) : Step → Step
+  | .inl (s, o) => .inl (T.app s, o.map (shiftErr T.k))
+  | .inr s => .inr (T.app s)
+
+/-- a round behind the `@` -/
+def cmdStep (s : St) : Step :=
+  match parseCommand s with
+  | .ok c s =>
+    match processCmd c s with
+    | .ok _ s => .inr s
+    | .fail (.raised e) s => .inl (s, some e)
+    | .fail (.syn e) s => .inl (s, some e)
+    | .fail .skip s => .inr s
+  | .fail (.syn e) s =>
+    match handleError s e with
+    | .ok _ s => .inr s
+    | .fail (.raised e) s => .inl (s, some e)
+    | .fail _ s => .inl (s, some e)
+  | .fail .skip s => .inr s
+  | .fail (.raised e) s => .inl (s, some e)
+
+theorem loopStep_eq (s : St) :
+    loopStep s =
+      match skipToChar (· = '@') s.rest with
+      | none => .inl (s, none)
+      | some (chunk, rest) => cmdStep { s with rest := rest, ln := s.ln + countNl chunk } := rfl
+
+/-- the round neither reported nor raised `PrematureEOF` (nor ran out of fuel); if it raised an
+error, then in front of an unread character -/
+def StepOK (r : Step) : Prop :=
+  (∀ e ∈ r.st.errs, ¬ stopKind e.kind) ∧ (∀ e, r.err = some e → ¬ stopKind e.kind ∧ r.st.rest ≠ [])
+
+def NoClashS (T : Tr) (m : Nat) (r : Step) : Prop :=
+  ∀ key, T.blocks key = true → errRep key ∉ r.st.errs.drop m ∧ r.err ≠ some (errRep key)
+
+theorem cmdStep_lc {N : Nat} (T : Tr) (s : St) (hI : Inv N s) (hc : T.c = [] ∨ StepOK (cmdStep s)) :
+    CmdLC T (parseCommand s) := by
+  rcases hc with hc | ⟨herr, hra⟩
+  · exact Or.inl hc
+  · right
+    have hg := parseCommand_good hI
+    unfold cmdStep at herr hra
+    cases hp : parseCommand s with
+    | ok c s2 =>
+      rw [hp] at herr hra hg
+      refine ⟨fun h => h, ?_, fun h => h.elim⟩
+      intro e he
+      apply herr e
+      have hg2 := processCmd_good c s2 hg.1
+      simp only at herr ⊢
+      cases hq : processCmd c s2 with
+      | ok u s3 => rw [hq] at hg2; exact hg2.2.2.2.2.1.subset he
+      | fail a s3 =>
+        rw [hq] at hg2
+        cases a <;> exact hg2.2.1.2.2.2.1.subset he
+    | fail a s2 =>
+      rw [hp] at herr hra
+      cases a with
+      | syn e =>
+        simp only [handleError] at herr hra
+        cases hst : s2.strict with
+        | true =>
+          rw [hst] at herr hra
+          simp only [↓reduceIte] at herr hra
+          exact ⟨(hra e rfl).1, herr, fun h => h.elim⟩
+        | false =>
+          rw [hst] at herr
+          simp only [Bool.false_eq_true, ↓reduceIte, Step.st] at herr
+          exact ⟨herr e (by simp), fun e' he' => herr e' (List.mem_append_left _ he'), fun h => h.elim⟩
+      | skip => exact ⟨fun h => h, herr, fun h => h.elim⟩
+      | raised e => exact ⟨(hra e rfl).1, herr, fun _ => (hra e rfl).2⟩
+
+theorem cmdStep_T {N : Nat} (T : Tr) (m : Nat) (s : St) (hI : Inv N s)
+    (hn : T.n ≤ s.db.entries.length) (hm : m ≤ (T.app s).errs.length)
+    (hc : T.c = [] ∨ StepOK (cmdStep s)) (hk : NoClashS T m (cmdStep (T.app s))) :
+    cmdStep (T.app s) = (cmdStep s).mapT T := by
+  have hpc := parseCommand_T T s (cmdStep_lc T s hI hc)
+  have hg := parseCommand_good hI
+  have hdb := parseCommand_db s
+  unfold cmdStep at hk ⊢
+  rw [hpc] at hk ⊢
+  cases hp : parseCommand s with
+  | ok c s2 =>
+    rw [hp] at hk hg hdb
+    simp only [Res.mapR] at hk ⊢
+    have hk2 : NoClashR T m (processCmd c (T.app s2)) := by
+      intro key hb
+      obtain ⟨h1, h2⟩ := hk key hb
+      revert h1 h2
+      cases processCmd c (T.app s2) with
+      | ok u s3 => intro h1 _; exact ⟨h1, fun s' h => by cases h⟩
+      | fail a s3 =>
+        cases a with
+        | syn e => intro h1 _; exact ⟨h1, fun s' h => by cases h⟩
+        | skip => intro h1 _; exact ⟨h1, fun s' h => by cases h⟩
+        | raised e =>
+          intro h1 h2
+          refine ⟨h1, fun s' h => ?_⟩
+          cases h
+          exact h2 rfl
+    have hn2 : T.n ≤ s2.db.entries.length := by
+      have : s2.db = s.db := hdb
+      rw [this]; exact hn
+    have hm2 : m ≤ (T.app s2).errs.length := by
+      have h1 : s.errs.length ≤ s2.errs.length := hg.2.2.2.2.1.length_le
+      rw [T_errs_len] at hm ⊢
+      omega
+    rw [processCmd_T T m c s2 hg.1 hn2 hm2 hk2]
+    cases processCmd c s2 with
+    | ok u s3 => rfl
+    | fail a s3 => cases a <;> rfl
+  | fail a s2 =>
+    cases a with
+    | syn e =>
+      simp only [Res.mapR, Tr.ab]
+      rw [handleError_T]
+      cases handleError s2 e with
+      | ok u s3 => rfl
+      | fail a s3 => cases a <;> rfl
+    | skip => rfl
+    | raised e => rfl
+
+/-- the condition under which a whole round carries over: nothing appended to the text, or the
+round found an `@` and did not run into the end of the text -/
+def RoundLC (T : Tr) (s : St) : Prop := T.c = [] ∨ ('@' ∈ s.rest ∧ StepOK (loopStep s))
+
+theorem loopStep_T {N : Nat} (T : Tr) (m : Nat) (s : St) (hI : Inv N s)
+    (hn : T.n ≤ s.db.entries.length) (hm : m ≤ (T.app s).errs.length)
+    (hc : RoundLC T s) (hk : NoClashS T m (loopStep (T.app s))) :
+    loopStep (T.app s) = Step.mapT T (loopStep s) := by
+  rw [loopStep_eq] at hk ⊢
+  rw [loopStep_eq]
+  unfold RoundLC at hc
+  rw [loopStep_eq] at hc
+  cases hsk : skipToChar (· = '@') s.rest with
+  | none =>
+    have hT : T.c = [] := by
+      rcases hc with hc | ⟨hc, _⟩
+      · exact hc
+      · have := skipToChar_none hsk '@' hc
+        simp at this
+    have : (T.app s).rest = s.rest := by show s.rest ++ T.c = s.rest; rw [hT]; simp
+    rw [this, hsk]
+    rfl
+  | some cr =>
+    obtain ⟨chunk, rest⟩ := cr
+    have hsk' : skipToChar (· = '@') (T.app s).rest = some (chunk, rest ++ T.c) :=
+      skipToChar_app _ _ _ _ _ hsk
+    rw [hsk] at hc
+    rw [hsk'] at hk ⊢
+    simp only at hc hk ⊢
+    rw [T_chunk] at hk ⊢
+    obtain ⟨hI1, _, _⟩ := chunk_good hI hsk (by decide)
+    exact cmdStep_T T m _ hI1 hn hm (hc.imp id (fun h => h.2)) hk
+
+/-! ## §8 the command loop -/
+
+theorem cmdStep_good {N : Nat} (s : St) (hI : Inv N s) :
+    match cmdStep s with
+    | .inl _ => True
+    | .inr s' => Inv N s' ∧ Le s s' := by
+  unfold cmdStep
+  have hg := parseCommand_good hI
+  cases hr : parseCommand s with
+  | ok c s2 =>
+    rw [hr] at hg
+    simp only
+    have hg2 := processCmd_good c s2 hg.1
+    cases hr2 : processCmd c s2 with
+    | ok u s3 => rw [hr2] at hg2; exact ⟨hg2.1, hg.2.trans hg2.2⟩
+    | fail a s3 =>
+      rw [hr2] at hg2
+      cases a with
+      | syn e => trivial
+      | raised e => trivial
+      | skip => exact ⟨hg2.1, hg.2.trans hg2.2.1⟩
+  | fail a s2 =>
+    rw [hr] at hg
+    cases a with
+    | syn e =>
+      simp only
+      have hg2 := handleError_good hg.1 hg.2.2
+      cases hr2 : handleError s2 e with
+      | ok u s3 => rw [hr2] at hg2; exact ⟨hg2.1, hg.2.1.trans hg2.2⟩
+      | fail a s3 => cases a <;> trivial
+    | skip => exact ⟨hg.1, hg.2.1⟩
+    | raised e => trivial
+
+theorem loopStep_good {N : Nat} (s : St) (hI : Inv N s) :
+    match loopStep s with
+    | .inl _ => True
+    | .inr s' => Inv N s' ∧ Le s s' ∧ s'.rest.length < s.rest.length := by
+  rw [loopStep_eq]
+  cases hsk : skipToChar (· = '@') s.rest with
+  | none => trivial
+  | some cr =>
+    obtain ⟨chunk, rest⟩ := cr
+    obtain ⟨hI1, hL1, hlt⟩ := chunk_good hI hsk (by decide)
+    have := cmdStep_good _ hI1
+    simp only
+    cases hc : cmdStep { s with rest := rest, ln := s.ln + countNl chunk } with
+    | inl r => trivial
+    | inr s' =>
+      rw [hc] at this
+      refine ⟨this.1, hL1.trans this.2, ?_⟩
+      have h1 := this.2.1
+      have h3 : ({ s with rest := rest, ln := s.ln + countNl chunk } : St).rest.length = rest.length := rfl
+      omega
+
+/-- the result of the loop does not depend on the fuel, once there is enough of it -/
+theorem parseLoop_fuel {N : Nat} (f1 f2 : Nat) (s : St) (hI : Inv N s) (h1 : s.rest.length < f1)
+    (h2 : s.rest.length < f2) : parseLoop f1 s = parseLoop f2 s := by
+  induction f1 generalizing f2 s with
+  | zero => omega
+  | succ f1 ih =>
+    cases f2 with
+    | zero => omega
+    | succ f2 =>
+      rw [parseLoop_succ, parseLoop_succ]
+      have hg := loopStep_good s hI
+      cases hl : loopStep s with
+      | inl r => rfl
+      | inr s' =>
+        rw [hl] at hg
+        exact ih f2 s' hg.1 (by omega) (by omega)
+
+def mapEnd (T : Tr) (r : St × Option Err) : St × Option Err := (T.app r.1, r.2.map (shiftErr T.k))
+
+def NoClashE (T : Tr) (m : Nat) (r : St × Option Err) : Prop :=
+  ∀ key, T.blocks key = true → errRep key ∉ r.1.errs.drop m ∧ r.2 ≠ some (errRep key)
+
+theorem Tr.blocks_nil (T : Tr) (h : T.l = []) (key : Str) : T.blocks key = false := by
+  unfold Tr.blocks; rw [h]; rfl
+
+theorem mem_drop_of_prefix {α : Type} {l1 l2 : List α} {x : α} (m : Nat) (h : l1 <+: l2)
+    (hx : x ∈ l1.drop m) : x ∈ l2.drop m := by
+  obtain ⟨t, rfl⟩ := h
+  by_cases hm : m ≤ l1.length
+  · rw [List.drop_append_of_le_length hm]; exact List.mem_append_left _ hx
+  · have : l1.drop m = [] := List.drop_eq_nil_of_le (by omega)
+    rw [this] at hx; cases hx
+
+/-- The whole rest of the run carries over to a changed context (nothing appended to the text):
+problems and preamble items in front, line counter shifted, entries inserted — as long as the run
+in the changed context does not report a repeated entry for a key of the inserted entries. -/
+theorem parseLoop_T {N NA : Nat} (T : Tr) (m : Nat) (hT : T.c = []) (fuel : Nat) (s : St) (hI : Inv N s)
+    (hIA : T.l = [] ∨ Inv NA (T.app s)) (hf : s.rest.length < fuel)
+    (hn : T.n ≤ s.db.entries.length) (hm : m ≤ (T.app s).errs.length)
+    (hk : NoClashE T m (parseLoop fuel (T.app s))) :
+    parseLoop fuel (T.app s) = mapEnd T (parseLoop fuel s) := by
+  induction fuel generalizing s with
+  | zero => omega
+  | succ fuel ih =>
+    have hlenA : (T.app s).rest.length = s.rest.length := by
+      show (s.rest ++ T.c).length = _
+      rw [hT]; simp
+    rw [parseLoop_succ] at hk ⊢
+    rw [parseLoop_succ]
+    have hks : NoClashS T m (loopStep (T.app s)) := by
+      rcases hIA with hl | hIA
+      · intro key hb
+        rw [T.blocks_nil hl] at hb; cases hb
+      · intro key hb
+        obtain ⟨h1, h2⟩ := hk key hb
+        have hpre := parseLoop_prefix 1 (fuel + 1) (T.app s) hIA (by omega)
+        rw [parseLoop_succ 0, parseLoop_succ fuel] at hpre
+        revert h1 h2 hpre
+        cases loopStep (T.app s) with
+        | inl r =>
+          obtain ⟨s', o⟩ := r
+          intro h1 h2 _
+          exact ⟨h1, h2⟩
+        | inr s' =>
+          intro h1 _ hpre
+          refine ⟨fun hx => h1 (mem_drop_of_prefix m hpre.2.2.2.1 hx), fun h => by cases h⟩
+    have hstep := loopStep_T T m s hI hn hm (Or.inl hT) hks
+    rw [hstep] at hk ⊢
+    have hg := loopStep_good s hI
+    cases hl : loopStep s with
+    | inl r => obtain ⟨s', o⟩ := r; rfl
+    | inr s' =>
+      rw [hl] at hg hk hstep
+      simp only [Step.mapT] at hk ⊢
+      have hIA' : T.l = [] ∨ Inv NA (T.app s') := by
+        rcases hIA with hl | hIA
+        · exact Or.inl hl
+        · right
+          have := loopStep_good (T.app s) hIA
+          rw [hstep] at this
+          exact this.1
+      apply ih s' hg.1 hIA' (by omega)
+      · exact Nat.le_trans hn hg.2.1.2.2.2.2.1.length_le
+      · have h1 : s.errs.length ≤ s'.errs.length := hg.2.1.2.2.2.1.length_le
+        rw [T_errs_len] at hm ⊢
+        omega
+      · exact hk
 
 end Pybtex.Bib
